@@ -66,7 +66,7 @@ def run(ctx):
                    'deps.dev npm/Maven resolvers and the local matcher are deterministic functions of the manifest requirements (parameters of the model; both FixVulns runs use the same clients)',
                    'C13 trust base for ReadWriter.Read/Write', 'harness/cmd/c12gen + harness/remx + lean/Drivers/C12.lean', 'Lean compiler for the driver executable']
     ctx.assumptions = ['WriterCorrect (= C13) is a hypothesis of C12_roundtrip_partial / C12_no_patch_no_change_partial',
-                       'the in-memory patched manifest keeps the keys of the original (updates, not additions) in C12_roundtrip_partial; additions (Maven dependencyManagement) are covered by the end-to-end stream only',
+                       'the in-memory patched manifest keeps the keys of the original (updates, not additions) in C12_roundtrip_partial; additions (Maven dependencyManagement, every third Maven pom with a dependencyManagement section only inside an inactive profile) are covered by the end-to-end stream only',
                        'a fresh analysis lists every vulnerability id once (FindVulnerabilities groups by id); C12_duplicate_witness shows the hypothesis matters']
     ctx.rule = ('cp = 0-6 patches (1-2 updates over 4 packages x 2 old versions, 1-2 fixed ids, sometimes introduced ids) x MaxUpgrades in {-1,0,1,2,3} x NoIntroduce, through the real choosePatches and '
                 'computeVulnsResult; cd = old/new vulnerability id lists and old/new requirement lists (real package.json manifests) through the real ConstructPatches; '
